@@ -625,6 +625,77 @@ Definition run_lxml (cfg : wconfig) (user : nsmap) (evs : list wevent) : inode +
   | inr e => inr e
   end.
 
+(* ================================================================== event trees
+   A well-nested event list denotes a tree; the guards of the theorems are stated on
+   that tree.  `parse_item` is the recogniser (fuel = length + 1 suffices). *)
+Inductive item :=
+| IData (v : wvalue)
+| INode (q : qname) (attrs : list (qname * wvalue)) (kids : list item).
+
+Fixpoint flatten (i : item) : list wevent :=
+  match i with
+  | IData v => [WData v]
+  | INode q ats ks =>
+      WStart q :: map (fun a => WAttr (fst a) (snd a)) ats ++ flat_map flatten ks ++ [WEnd q]
+  end.
+
+Fixpoint take_attrs (evs : list wevent) : list (qname * wvalue) * list wevent :=
+  match evs with
+  | WAttr q v :: r => let (a, r') := take_attrs r in ((q, v) :: a, r')
+  | _ => ([], evs)
+  end.
+
+Fixpoint parse_item (fuel : nat) (evs : list wevent) : option (item * list wevent) :=
+  match fuel with
+  | O => None
+  | S f =>
+      match evs with
+      | WData v :: r => Some (IData v, r)
+      | WStart q :: r =>
+          let (ats, r1) := take_attrs r in
+          match parse_items f r1 with
+          | Some (ks, WEnd q' :: r2) => if qname_eqb q q' then Some (INode q ats ks, r2) else None
+          | _ => None
+          end
+      | _ => None
+      end
+  end
+with parse_items (fuel : nat) (evs : list wevent) : option (list item * list wevent) :=
+  match fuel with
+  | O => None
+  | S f =>
+      match evs with
+      | WData _ :: _ | WStart _ :: _ =>
+          match parse_item f evs with
+          | Some (i, r) => match parse_items f r with
+                           | Some (ks, r') => Some (i :: ks, r')
+                           | None => None
+                           end
+          | None => None
+          end
+      | _ => Some ([], evs)
+      end
+  end.
+
+(* the document the event list denotes: one element, nothing after it *)
+Definition doc_tree (evs : list wevent) : option item :=
+  match parse_item (S (length evs)) evs with
+  | Some (INode q ats ks, []) => Some (INode q ats ks)
+  | _ => None
+  end.
+Definition well_nested_b (evs : list wevent) : bool :=
+  match doc_tree evs with Some _ => true | None => false end.
+Definition on_tree (P : item -> bool) (evs : list wevent) : bool :=
+  match doc_tree evs with Some t => P t | None => true end.
+
+(* a predicate on every element (name, attributes, content) and every data value *)
+Fixpoint all_nodes (P : qname -> list (qname * wvalue) -> list item -> bool) (D : wvalue -> bool)
+         (i : item) : bool :=
+  match i with
+  | IData v => D v
+  | INode q ats ks => P q ats ks && forallb (all_nodes P D) ks
+  end.
+
 (* ================================================================== guards
    Computable side conditions of the theorems.  One clause per refutation lemma in
    Proofs/WriterRefute.v; `writer_guard` is their conjunction. *)
@@ -642,20 +713,12 @@ Definition value_falsy (v : wvalue) : bool :=
   | _ => false
   end.
 
-Definition event_qnames (e : wevent) : list qname :=
-  match e with
-  | WStart q => [q] | WEnd q => [q] | WAttr q _ => [q] | WData _ => []
-  end.
 Definition atom_qnames (a : atom) : list qname := match a with AQName q => [q] | AText _ => [] end.
-Definition event_value (e : wevent) : wvalue :=
-  match e with
-  | WAttr q v => attr_value_conv q v
-  | WData v => v
-  | _ => VNone
-  end.
-Definition event_atom_qnames (e : wevent) : list qname := flat_map atom_qnames (value_atoms (event_value e)).
-Definition event_texts (e : wevent) : list str :=
-  flat_map (fun a => match a with AText s => [s] | AQName _ => [] end) (value_atoms (event_value e)).
+Definition value_qnames (v : wvalue) : list qname := flat_map atom_qnames (value_atoms v).
+Definition value_texts (v : wvalue) : list str :=
+  flat_map (fun a => match a with AText s => [s] | AQName _ => [] end) (value_atoms v).
+(* an attribute value as add_attribute sees it *)
+Definition attr_conv (a : qname * wvalue) : wvalue := attr_value_conv (fst a) (snd a).
 
 (* -- clause: names are XML names, namespace names are plain ------------------------ *)
 Definition uri_char_ok (c : N) : bool :=
@@ -666,27 +729,32 @@ Definition ouri_ok (u : option str) : bool := match u with Some u' => uri_ok u' 
 Definition name_ok (q : qname) : bool := is_ncname (snd q) && ouri_ok (fst q).
 Definition attr_name_ok (q : qname) : bool :=
   name_ok q && negb (match fst q with None => str_eqb (snd q) s_xmlns | Some _ => false end).
-Definition event_names_ok (e : wevent) : bool :=
-  match e with
-  | WAttr q _ => attr_name_ok q
-  | _ => forallb name_ok (event_qnames e)
-  end && forallb name_ok (event_atom_qnames e).
-Definition names_ok (evs : list wevent) : bool := forallb event_names_ok evs.
+Definition t_names_ok : item -> bool :=
+  all_nodes (fun q ats _ => name_ok q && forallb (fun a => attr_name_ok (fst a)) ats
+                            && forallb (fun a => forallb name_ok (value_qnames (attr_conv a))) ats)
+            (fun v => forallb name_ok (value_qnames v)).
+Definition names_ok (evs : list wevent) : bool := on_tree t_names_ok evs.
 (* the part of names_ok that is about namespace names only (finding: hostile URI) *)
-Definition event_uris_ok (e : wevent) : bool :=
-  forallb (fun q => ouri_ok (fst q)) (event_qnames e ++ event_atom_qnames e).
-Definition uris_ok (evs : list wevent) : bool := forallb event_uris_ok evs.
+Definition t_uris_ok : item -> bool :=
+  all_nodes (fun q ats _ => ouri_ok (fst q) && forallb (fun a => ouri_ok (fst (fst a))) ats
+                            && forallb (fun a => forallb (fun x => ouri_ok (fst x)) (value_qnames (attr_conv a))) ats)
+            (fun v => forallb (fun x => ouri_ok (fst x)) (value_qnames v)).
+Definition uris_ok (evs : list wevent) : bool := on_tree t_uris_ok evs.
 
 (* -- clause: text is XML text ---------------------------------------------------------- *)
-Definition texts_ok (cfg : wconfig) (evs : list wevent) : bool :=
-  forallb (fun e => forallb (forallb is_xml_char) (event_texts e)) evs
-  && forallb (fun o => match o with Some s => forallb is_xml_char s | None => true end)
-       [cfg_schema_location cfg; cfg_no_ns_schema_location cfg].
+Definition t_texts_ok : item -> bool :=
+  all_nodes (fun _ ats _ => forallb (fun a => forallb (forallb is_xml_char) (value_texts (attr_conv a))) ats)
+            (fun v => forallb (forallb is_xml_char) (value_texts v)).
+Definition cfg_texts_ok (cfg : wconfig) : bool :=
+  forallb (fun o => match o with
+                    | Some s => forallb is_xml_char s && negb (startswith [c_lbrace] s)
+                    | None => true end)
+          [cfg_schema_location cfg; cfg_no_ns_schema_location cfg].
+Definition texts_ok (cfg : wconfig) (evs : list wevent) : bool := on_tree t_texts_ok evs && cfg_texts_ok cfg.
 (* XMLGenerator.characters writes CR raw; the XML parser turns it into LF *)
-Definition no_cr_in_data (evs : list wevent) : bool :=
-  forallb (fun e => match e with
-                    | WData v => forallb (fun s => negb (mem 13 s)) (event_texts e)
-                    | _ => true end) evs.
+Definition t_no_cr : item -> bool :=
+  all_nodes (fun _ _ _ => true) (fun v => forallb (fun s => negb (mem 13 s)) (value_texts v)).
+Definition no_cr_in_data (evs : list wevent) : bool := on_tree t_no_cr evs.
 
 (* -- clause: user prefixes ---------------------------------------------------------------- *)
 Definition user_prefix_legal (e : option str * str) : bool :=
@@ -717,54 +785,42 @@ Definition user_entry_no_collision (n : nat) (e : option str * str) : bool :=
 Definition user_no_collision (user : nsmap) : bool :=
   let m := serializer_ns_map user in forallb (user_entry_no_collision (length m)) m.
 
-(* -- scoped clauses: a scan with the open elements ------------------------------------------ *)
-Record gframe := { gf_name : qname; gf_nil : bool; gf_phase : N }.
-   (* phase 0: start tag pending; 1: flushed by a None data with xsi:nil kept; 2: content begun *)
-Definition gtop (st : list gframe) : gframe :=
-  match st with f :: _ => f | [] => {| gf_name := (None, []); gf_nil := false; gf_phase := 2 |} end.
-Definition gset_phase (n : N) (st : list gframe) : list gframe :=
-  match st with
-  | f :: r => {| gf_name := gf_name f; gf_nil := gf_nil f; gf_phase := n |} :: r
-  | [] => []
-  end.
-Definition gnext (st : list gframe) (e : wevent) : list gframe :=
-  match e with
-  | WStart q => {| gf_name := q; gf_nil := false; gf_phase := 0 |} :: gset_phase 2 st
-  | WAttr q _ => match st with
-                 | f :: r => {| gf_name := gf_name f; gf_nil := gf_nil f || qname_eqb q q_xsi_nil_m;
-                                gf_phase := gf_phase f |} :: r
-                 | [] => [] end
-  | WData v => match st with
-               | f :: r => (if (gf_phase f =? 0) && value_none v && gf_nil f then gset_phase 1 st
-                            else gset_phase 2 st)
-               | [] => [] end
-  | WEnd _ => match st with _ :: r => r | [] => [] end
-  end.
-Fixpoint gscan (P : gframe -> bool -> wevent -> bool) (st : list gframe) (prev_data : bool)
-         (evs : list wevent) : bool :=
-  match evs with
-  | [] => true
-  | e :: r => P (gtop st) prev_data e
-              && gscan P (gnext st e) (match e with WData _ => true | _ => false end) r
-  end.
-
+(* -- scoped clauses ------------------------------------------------------------------------ *)
 (* two data events in a row: the second one is written after the end tag *)
-Definition no_adjacent_data (evs : list wevent) : bool :=
-  gscan (fun _ prev e => match e with WData v => negb (prev && negb (value_falsy v)) | _ => true end) [] false evs.
+Fixpoint adj_ok (prev_data : bool) (ks : list item) : bool :=
+  match ks with
+  | [] => true
+  | IData v :: r => negb (prev_data && negb (value_falsy v)) && adj_ok true r
+  | INode _ _ _ :: r => adj_ok false r
+  end.
+Definition t_no_adjacent : item -> bool := all_nodes (fun _ _ ks => adj_ok false ks) (fun _ => true).
+Definition no_adjacent_data (evs : list wevent) : bool := on_tree t_no_adjacent evs.
 
-Definition has_ns_qname (e : wevent) : bool :=
-  existsb (fun q => match fst q with Some (_ :: _) => true | _ => false end) (event_atom_qnames e).
+Definition has_ns_qname (v : wvalue) : bool :=
+  existsb (fun q => match fst q with Some (_ :: _) => true | _ => false end) (value_qnames v).
 (* a QName in character data after the start tag was written may need a prefix that
    can no longer be declared *)
-Definition no_late_qname_data (evs : list wevent) : bool :=
-  gscan (fun f _ e => match e with WData _ => implb (has_ns_qname e) (gf_phase f =? 0) | _ => true end) [] false evs.
+Definition late_ok (ks : list item) : bool :=
+  match ks with
+  | [] => true
+  | _ :: r => forallb (fun k => match k with IData v => negb (has_ns_qname v) | INode _ _ _ => true end) r
+  end.
+Definition t_no_late_qname : item -> bool := all_nodes (fun _ _ ks => late_ok ks) (fun _ => true).
+Definition no_late_qname_data (evs : list wevent) : bool := on_tree t_no_late_qname evs.
 
+Definition q_xsi_nil_pair (q : qname) : bool := qname_eqb q q_xsi_nil_m.
+Definition has_nil (ats : list (qname * wvalue)) : bool := existsb (fun a => q_xsi_nil_pair (fst a)) ats.
 (* xsi:nil survives a None data event; content may still follow *)
-Definition nil_content_ok (evs : list wevent) : bool :=
-  gscan (fun f _ e => match e with
-                      | WStart _ => negb (gf_phase f =? 1)
-                      | WData v => negb ((gf_phase f =? 1) && negb (value_none v))
-                      | _ => true end) [] false evs.
+Definition nil_ok (ats : list (qname * wvalue)) (ks : list item) : bool :=
+  match ks with
+  | IData v :: r =>
+      if has_nil ats && value_none v
+      then forallb (fun k => match k with IData v' => value_none v' | INode _ _ _ => false end) r
+      else true
+  | _ => true
+  end.
+Definition t_nil_ok : item -> bool := all_nodes (fun _ ats ks => nil_ok ats ks) (fun _ => true).
+Definition nil_content_ok (evs : list wevent) : bool := on_tree t_nil_ok evs.
 
 Definition user_default (user : nsmap) : option str := nm_get (serializer_ns_map user) None.
 
@@ -772,34 +828,46 @@ Definition user_default (user : nsmap) : option str := nm_get (serializer_ns_map
 Definition root_attr_qnames (cfg : wconfig) : list qname :=
   (match cfg_schema_location cfg with Some _ => [split_qname qn_xsi_schema_location] | None => [] end)
   ++ (match cfg_no_ns_schema_location cfg with Some _ => [split_qname qn_xsi_no_namespace_schema_location] | None => [] end).
+Definition t_default_not_on_attr (u0 : str) : item -> bool :=
+  all_nodes (fun _ ats _ => forallb (fun a => negb (ostr_eqb (fst (fst a)) (Some u0))) ats) (fun _ => true).
 Definition default_not_on_attr (cfg : wconfig) (user : nsmap) (evs : list wevent) : bool :=
   match user_default user with
   | None => true
   | Some u0 =>
-      forallb (fun e => match e with WAttr q _ => negb (ostr_eqb (fst q) (Some u0)) | _ => true end) evs
+      on_tree (t_default_not_on_attr u0) evs
       && forallb (fun q => negb (ostr_eqb (fst q) (Some u0))) (root_attr_qnames cfg)
   end.
 
 (* a QName value in the user's default namespace is printed bare; an unqualified element
    then resets the default namespace *)
+Definition no_qname_in (u0 : str) (v : wvalue) : bool :=
+  negb (existsb (fun q => ostr_eqb (fst q) (Some u0)) (value_qnames v)).
+Definition t_default_qname_ok (u0 : str) : item -> bool :=
+  all_nodes (fun q ats ks =>
+               match fst q with
+               | Some (_ :: _) => true
+               | _ => forallb (fun a => no_qname_in u0 (attr_conv a)) ats
+                      && forallb (fun k => match k with IData v => no_qname_in u0 v | INode _ _ _ => true end) ks
+               end) (fun _ => true).
 Definition default_qname_ok (user : nsmap) (evs : list wevent) : bool :=
   match user_default user with
   | None => true
-  | Some u0 =>
-      gscan (fun f _ e =>
-               match e with
-               | WAttr _ _ | WData _ =>
-                   implb (existsb (fun q => ostr_eqb (fst q) (Some u0)) (event_atom_qnames e))
-                         (match fst (gf_name f) with Some (_ :: _) => true | _ => false end)
-               | _ => true end) [] false evs
+  | Some u0 => on_tree (t_default_qname_ok u0) evs
   end.
 
 (* a str attribute value that spells a schema datatype in Clark notation is re-written *)
-Definition no_clark_datatype_text (evs : list wevent) : bool :=
-  forallb (fun e => match e with
-                    | WAttr q (VAtom (AText s)) =>
-                        qname_eqb q q_xsi_type_m || negb (existsb (str_eqb s) datatype_qnames)
-                    | _ => true end) evs.
+Definition t_no_clark : item -> bool :=
+  all_nodes (fun _ ats _ =>
+               forallb (fun a => match snd a with
+                                 | VAtom (AText s) =>
+                                     qname_eqb (fst a) q_xsi_type_m || negb (existsb (str_eqb s) datatype_qnames)
+                                 | _ => true end) ats) (fun _ => true).
+Definition no_clark_datatype_text (evs : list wevent) : bool := on_tree t_no_clark evs.
+
+(* grammar: attribute events carry a value (EventGenerator skips None attributes) *)
+Definition t_attrs_present : item -> bool :=
+  all_nodes (fun _ ats _ => forallb (fun a => negb (value_none (snd a))) ats) (fun _ => true).
+Definition events_wf (evs : list wevent) : bool := well_nested_b evs && on_tree t_attrs_present evs.
 
 Definition user_map_ok (cfg : wconfig) (user : nsmap) (evs : list wevent) : bool :=
   user_prefixes_legal user && user_no_collision user
@@ -807,16 +875,20 @@ Definition user_map_ok (cfg : wconfig) (user : nsmap) (evs : list wevent) : bool
 
 Definition events_ok (cfg : wconfig) (evs : list wevent) : bool :=
   names_ok evs && texts_ok cfg evs && no_cr_in_data evs && no_adjacent_data evs
-  && no_late_qname_data evs && nil_content_ok evs && no_clark_datatype_text evs.
+  && no_late_qname_data evs && nil_content_ok evs && no_clark_datatype_text evs && events_wf evs.
 
 Definition writer_guard (cfg : wconfig) (user : nsmap) (evs : list wevent) : bool :=
   user_map_ok cfg user evs && events_ok cfg evs.
 
 (* the lxml sink model abstains outside this domain *)
+Definition t_lxml_uris : item -> bool :=
+  all_nodes (fun q ats _ => match fst q with Some u => l_uri_ok u | None => true end
+                            && forallb (fun a => match fst (fst a) with Some u => l_uri_ok u | None => true end) ats
+                            && forallb (fun a => forallb (fun x => match fst x with Some u => l_uri_ok u | None => true end)
+                                                         (value_qnames (attr_conv a))) ats)
+            (fun v => forallb (fun x => match fst x with Some u => l_uri_ok u | None => true end) (value_qnames v)).
 Definition lxml_domain (cfg : wconfig) (user : nsmap) (evs : list wevent) : bool :=
-  forallb (fun e => l_uri_ok (snd e)) (serializer_ns_map user)
-  && forallb (fun e => forallb (fun q => match fst q with Some u => l_uri_ok u | None => true end)
-                               (event_qnames e ++ event_atom_qnames e)) evs.
+  forallb (fun e => l_uri_ok (snd e)) (serializer_ns_map user) && on_tree t_lxml_uris evs.
 
 (* ================================================================== statements *)
 (* what the document must say: the events, plus the configured root attributes *)
@@ -827,7 +899,8 @@ Definition expected (cfg : wconfig) (evs : list wevent) : option enode :=
 Definition clause_vector (cfg : wconfig) (user : nsmap) (evs : list wevent) : list bool :=
   [ user_prefixes_legal user; user_no_collision user; default_not_on_attr cfg user evs;
     default_qname_ok user evs; names_ok evs; texts_ok cfg evs; no_cr_in_data evs;
-    no_adjacent_data evs; no_late_qname_data evs; nil_content_ok evs; no_clark_datatype_text evs ].
+    no_adjacent_data evs; no_late_qname_data evs; nil_content_ok evs; no_clark_datatype_text evs;
+    events_wf evs ].
 
 (* C03 for one input, native writer: the output is well-formed, namespace-well-formed and
    says what the events say — or the call failed with the sanctioned writer error *)
